@@ -35,6 +35,7 @@ static void push(Visitor& enc, const mj::Value& evs) {
     enc.flush();
 }
 
+static long g_extra_every = 1;
 template <class MakeAndPush>
 static void one(size_t idx, const mj::Value& c, const char* name, MakeAndPush f) {
     mj::Value t = hz::rec("trace"); t.set("idx", (int64_t)idx); t.set("enc", name); t.set("ev", c["ev"]); t.set("v", c["v"]); t.set("right", c["right"]);
@@ -46,7 +47,7 @@ static void one(size_t idx, const mj::Value& c, const char* name, MakeAndPush f)
 
 int main(int argc, char** argv) {
     auto args = hz::parse_args(argc, argv);
-    std::string only = args.opt("--encoder", "");
+    std::string only = args.opt("--encoder", ""); g_extra_every = std::stol(args.opt("--extra-every", "1"));
     long ncases = 0;
     hz::for_each_case(args, [&](size_t idx, const std::string& line) {
         mj::Value c = mj::parse(line); ++ncases;
@@ -70,7 +71,8 @@ int main(int argc, char** argv) {
         auto want = [&](const char* n) { return only.empty() || only == n; };
         // encoder reuse: the same sequence pushed once more by the same encoder object after reset(new sink) is judged like any other output
         // (only for sequences whose declared lengths are right: after a refused sequence nothing is promised about the object)
-        const bool reuse = c["right"].as_bool();
+        const bool extra = g_extra_every <= 1 || idx % (size_t)g_extra_every == 0;      // (the thorough tier runs the reuse and layout variants on every k-th sequence)
+        const bool reuse = extra && c["right"].as_bool();
         if (reuse && want("cbor")) one(idx, c, "cbor", [&](std::vector<uint8_t>& o) { std::vector<uint8_t> first; cbor::cbor_bytes_encoder e(first); push(e, c["ev"]); e.reset(o); push(e, c["ev"]); });
         if (reuse && want("msgpack")) one(idx, c, "msgpack", [&](std::vector<uint8_t>& o) { std::vector<uint8_t> first; msgpack::msgpack_bytes_encoder e(first); push(e, c["ev"]); e.reset(o); push(e, c["ev"]); });
         if (reuse && want("ubjson")) one(idx, c, "ubjson", [&](std::vector<uint8_t>& o) { std::vector<uint8_t> first; ubjson::ubjson_bytes_encoder e(first); push(e, c["ev"]); e.reset(o); push(e, c["ev"]); });
@@ -85,7 +87,7 @@ int main(int argc, char** argv) {
         if (want("jsonpretty")) one(idx, c, "jsonpretty", [&](std::vector<uint8_t>& o) { std::string s; json_string_encoder e(s); push(e, c["ev"]); o.assign(s.begin(), s.end()); });
         // the pretty encoder under layout options (every spacing of commas and colons x line splits x padding x line length, rotating with the case index):
         // whatever the layout, the text must be RFC 8259 JSON denoting the pushed data (judged like "jsonpretty")
-        if (want("jsonpretty")) for (int k = 0; k < 3; ++k) one(idx, c, "jsonpretty", [&](std::vector<uint8_t>& o) {
+        if (extra && want("jsonpretty")) for (int k = 0; k < 3; ++k) one(idx, c, "jsonpretty", [&](std::vector<uint8_t>& o) {
             size_t h = idx * 3 + (size_t)k; json_options op;
             op.spaces_around_comma((spaces_option)(h % 4)).spaces_around_colon((spaces_option)((h / 4) % 4));
             line_split_kind ls = (line_split_kind)((h / 16) % 3); op.object_array_line_splits(ls).array_array_line_splits((line_split_kind)((h / 48) % 3)).array_object_line_splits(ls).object_object_line_splits((line_split_kind)((h / 144) % 3));
